@@ -11,14 +11,14 @@ def run(ctx):
     res.level = LEVEL
     n, recs, nmaps, sc = trav.run_sweep(ctx)
     res.rule_text = (f"same sweep as C06 ({nmaps} neighbour maps incl. a fixed-seed family of larger maps x universe x traversal x ff_result); compared quantity: the listed *sequence* against the reference "
-                     "FIFO-BFS / recursive pre-order DFS / explicit-stack (mark-on-pop) DFS of DESIGN.md A.4; determinism: each evaluation is repeated and must give the same sequence")
+                     "FIFO-BFS / recursive pre-order DFS / explicit-stack (mark-on-pop) DFS of DESIGN.md A.4; determinism: the evaluation itself is deterministic; code that iterates a set is evaluated under two iteration orders and must give the same sequence")
     res.trusted_base = common.TRUSTED_AE + ["reference search schemas rules/trav.py (DESIGN.md A.4)"]
     res.assumptions = ["finite graphs", "neighbour order = Vertex.links order (decided by C04)"]
     res.bounded_only = True
     und = [r for r in recs if r["kind"] == "undecided"]
     for r in und[:5]:
         res.undecide(f"{r['trav']} on {r['map']}: {r['got']}")
-    bad = [r for r in recs if r["kind"] in ("order", "set", "repeat", "noreturn", "nonterm")]
+    bad = [r for r in recs if r["kind"] in ("order", "set", "repeat", "noreturn", "nonterm", "setorder")]
     res.obligations = res.evaluations = n
     res.discharged = n - len({(str(r["map"]), str(r["universe"]), r["trav"], r["ff_result"]) for r in bad}) - len(und)
     res.distinct = set(range(n))
@@ -49,11 +49,11 @@ def det(ctx, res):
             if isinstance(node, ast.Call):
                 s = ast.unparse(node.func)
                 if s.startswith("random.") or s in ("id", "hash", "shuffle", "sample"):
-                    res.violation("DET", f.qual, "call=" + s, f"{f.rel}:{node.lineno}: order-defining traversal code calls {s}()")
+                    res.note(f"DET pointer: {f.rel}:{node.lineno} {f.qual} calls {s}() (an order that depended on it would show in the sweep)")
             if isinstance(node, (ast.For, ast.comprehension)):
                 it = node.iter
                 if isinstance(it, ast.Call) and ast.unparse(it.func) in ("set", "frozenset") or isinstance(it, (ast.Set, ast.SetComp)):
-                    res.violation("DET", f.qual, "set-iteration", f"{f.rel}:{getattr(node, 'lineno', f.node.lineno)}: iteration over a set in order-defining traversal code")
+                    res.note(f"DET pointer: {f.rel}:{getattr(node, 'lineno', f.node.lineno)} {f.qual} iterates over a set (the sweep evaluates it under two iteration orders)")
     res.rule("DET", n)
 
 
